@@ -9,6 +9,7 @@ ops (one output line each):
         N = int64 LinkBudget given to the TraversalBuilder (`-` = nil budget);
         held = comma separated block numbers the store holds (`*` = all, `-` = none)
   stack <req|resp> <global> <perReq> <LT>      -> `loads=<n> out=<…>`   (complete store)
+  stackskip req <global> <perReq> <k> <LT>     -> `loads=<n> out=<…>`   (requestor resumes after k blocks)
 LT prefix form: <block> <number of children> child*
 -/
 namespace GS.Driver.Budget
@@ -62,6 +63,13 @@ def stepLine (t : Toks) : String :=
     match sd, g.toNat?, p.toNat?, parseLT (rest.length + 1) rest with
     | some sd, some g, some p, some (lt, []) =>
       let r := serve sd (fun _ => true) g p lt
+      s!"loads={r.loads.length} out={showOutcome r.outcome}"
+    | _, _, _, _ => "bad-op"
+  | "stackskip" :: "req" :: g :: p :: k :: rest =>
+    -- a resumed transfer (do-not-send-first-blocks = k): the budget is unaffected by k
+    match g.toNat?, p.toNat?, k.toNat?, parseLT (rest.length + 1) rest with
+    | some g, some p, some _, some (lt, []) =>
+      let r := serve .requestor (fun _ => true) g p lt
       s!"loads={r.loads.length} out={showOutcome r.outcome}"
     | _, _, _, _ => "bad-op"
   | _ => "bad-op"
